@@ -58,6 +58,17 @@ structure SlackWorld (I : DistI D) (w : World D) (Near : EdgeKey → D → Prop)
   /-- nothing is `Near` zero -/
   zeroMin : ∀ e ∈ w.allEdges, ¬ Near e I.zero
 
+/-- the part of `SubLaws` the single-result search really uses (package c08world2): `x ⊖ err ≤ x` for the values
+    `updateDistanceToEdge` returns for edges of the index, and for `zero`.  (`ChordAngle.Sub` violates `x ⊖ err ≤ x` for
+    receivers above 4 — NaN — and for receivers / errors so tiny that `x*y` underflows; see `EdgeQuery/ChordSub.lean`.) -/
+structure SubLawsOn (I : DistI D) (w : World D) (err : D) : Prop where
+  sub_edge : ∀ e ∈ w.allEdges, ∀ lim x, w.updEdge e lim = some x → I.less x (I.sub x err) = false
+  sub_zero : I.less I.zero (I.sub I.zero err) = false
+
+theorem _root_.S2Proofs.EdgeQuery.SubLaws.on {I : DistI D} {w : World D} {err : D} (S : SubLaws I err) :
+    SubLawsOn I w err :=
+  ⟨fun _ _ _ _ _ => S.sub_le _, S.sub_le _⟩
+
 /-- what a result of the search is: an interior result, or an edge of the index with a value its
     `updateDistanceToEdge` returned for some limit not above the option's limit -/
 def SoundResult [DecidableEq D] (I : DistI D) (o : Opts D) (w : World D) (r : Result D) : Prop :=
